@@ -644,13 +644,19 @@ func (p *Parser) parseSlots() []*ast.SlotStmt {
 			p.nextToken() // skip ")"
 		}
 
+		// with an empty body the current token is already the slot's "@end"
+		isEmpty := p.curTokenIs(token.END)
+
 		slots = append(slots, &ast.SlotStmt{
 			Token: tok, // "@slot"
 			Name:  slotName,
 			Body:  p.parseBlockStmt(),
 		})
 
-		p.nextToken() // skip block statement
+		if !isEmpty {
+			p.nextToken() // skip block statement
+		}
+
 		p.nextToken() // skip "@end"
 
 		for p.curTokenIs(token.HTML) {
